@@ -177,6 +177,33 @@ pub fn run(em: &mut Emit, thorough: bool, seed: u64) {
             emit_program(em, p, &sp, "nt=1;kind=c10-map");
         }
     }
+    // maps whose keys are of every key kind (the iteration variable is the key itself: its kind
+    // and its full 64-bit value), and bodies that are constants
+    let key_pool = [Key::Int(0), Key::Int(1), Key::Int(2), Key::Int(-1), Key::Int(i64::MIN), Key::Int(i64::MAX), Key::Uint(1), Key::Uint(2),
+                    Key::Uint(u64::MAX), Key::Uint(1 << 63), Key::Bool(true), Key::Bool(false),
+                    Key::String(Arc::new("a".to_string())), Key::String(Arc::new("é".to_string()))];
+    let key_progs = ["l.map(x, x)", "l.filter(x, true)", "l.filter(x, false)", "l.all(x, true)", "l.exists(x, false)", "l.exists_one(x, true)",
+                     "l.map(x, true, x)", "l.map(x, [x, x])", "l.exists(x, x == 1u)", "l.map(x, x + 1u)", "l.map(x, x + 1)",
+                     "l.map(x, string(x))", "l.filter(x, x in l)", "l.map(x, l[x])", "l.all(x, x >= 1u)", "l.filter(x, x > 0)",
+                     "l.map(x, x == 18446744073709551615u)", "l.map(x, x == -1)", "l.map(x, {x: 1})", "l.map(x, l.map(y, [y, x]))",
+                     "l.filter(x, l.exists(y, y == x))", "l.map(x, idf(x))", "l.exists_one(x, x == 2)", "l.map(x, x > 1, x)"];
+    for _ in 0..(if thorough { 3000 } else { 250 }) {
+        let n = rng.below(5);
+        let mut m = HashMap::new();
+        for _ in 0..n {
+            m.insert(rng.pick(&key_pool).clone(), Value::Int(rng.range(0, 9)));
+        }
+        let sp = spec(vec![("l".into(), Value::Map(Map { map: Arc::new(m) }))]);
+        for p in &key_progs {
+            emit_program(em, p, &sp, "nt=1;kind=c10-map-keys");
+        }
+    }
+    for l in [vec![], vec![Value::Int(1)], vec![Value::Int(0), Value::UInt(2), Value::Bool(true)]] {
+        let sp = spec(vec![("l".into(), Value::List(Arc::new(l)))]);
+        for p in &key_progs {
+            emit_program(em, p, &sp, "nt=1;kind=c10-const-body");
+        }
+    }
     // random longer lists
     for _ in 0..(if thorough { 3000 } else { 150 }) {
         let n = 5 + rng.below(20);
